@@ -73,7 +73,10 @@ def run_case(case):
     items = []
     for n, d in enumerate(case['deltas']):
         t += d
-        items.append((t, bool(case['flags'][n]), case['gk'][n] if case.get('gk') else 0, n))
+        g_ = case['gk'][n] if case.get('gk') else 0
+        # every key's timestamps are non-decreasing; with 'skew' the keys' clocks are far apart (one log replayed after another)
+        skew = (2 - g_) * 997 if case.get('skew') and case.get('grouped') is True else 0
+        items.append((t + skew, bool(case['flags'][n]), g_, n))
     grouped = case.get('grouped', False)
     ctx = dict(case)
     # the documented types: time_mapper returns datetime, timeouts are timedelta; `scale` stretches one unit to
@@ -199,7 +202,7 @@ def case_gen(draw):
         't0': draw(st.integers(0, 3)),
         'deltas': draw(st.lists(st.integers(0, 7), min_size=n, max_size=n)),
         'flags': draw(st.lists(st.integers(0, 3).map(lambda x: int(x == 0)), min_size=n, max_size=n)),
-        'grouped': draw(st.sampled_from([False, True, True, 'split'])), 'scale': draw(st.sampled_from([1, 1, 3600, 43200, 86400, 0.2, 0.001])), 'cm': draw(st.sampled_from(['lambda', 'default_arg', 'partial', 'obj'])), 'tz': draw(st.sampled_from([False, True, 'mixed'])), 'post': draw(st.integers(0, 3)) == 0, 'stamp': draw(st.integers(0, 3)) == 0,
+        'grouped': draw(st.sampled_from([False, True, True, 'split'])), 'scale': draw(st.sampled_from([1, 1, 3600, 43200, 86400, 0.2, 0.001])), 'cm': draw(st.sampled_from(['lambda', 'default_arg', 'partial', 'obj'])), 'tz': draw(st.sampled_from([False, True, 'mixed'])), 'post': draw(st.integers(0, 3)) == 0, 'stamp': draw(st.integers(0, 3)) == 0, 'skew': draw(st.integers(0, 2)) == 0,
     }
     case['gk'] = draw(st.lists(st.integers(0, 2), min_size=n, max_size=n)) if case['grouped'] else None
     return case
